@@ -703,6 +703,14 @@ class TaskDispatcher(object):
                         self.orphaned_response_retention_ms
                     )
                     self.orphaned_responses[correlation_id] = (message, timeout_id)
+                    """
+                    Make sure the periodic check is running: the redelivered
+                    Task event may already have been dispatched (which is what
+                    normally schedules it) with its request not yet registered
+                    as pending, because that happens in a delegate called via
+                    a timeout.
+                    """
+                    self.schedule_orphaned_response_handler()
             else:
                 """
                 If the uptime is more than the retention period for orphaned
